@@ -1269,3 +1269,527 @@ Print Assumptions unmarshal_total_ranked_refuted.
 Print Assumptions unmarshal_top_with_total.
 Print Assumptions unmarshal_top_with_mono.
 Print Assumptions unmarshal_top_total_short.
+
+
+(* ====================================================================== *)
+(* 4. The unmarshaller: what is built is covered by what was consumed       *)
+(* ====================================================================== *)
+
+(* The dynamically sized part of a value: payload bytes of strings and byte
+   slices, and one unit per slice element and per map entry.  Everything whose
+   extent is fixed by the static type (array slots and their zero padding,
+   struct fields, pointers, [n]byte) counts nothing: that part is bounded by
+   the type, not by the input. *)
+Fixpoint dsize (v : gval) : nat :=
+  match v with
+  | GVStr s => length s
+  | VBytes (Some s) => length s
+  | VSlice (Some l) =>
+      (length l + (fix go (l : list gval) : nat := match l with [] => O | x :: r => (dsize x + go r)%nat end) l)%nat
+  | GVArr l | VStruct l =>
+      (fix go (l : list gval) : nat := match l with [] => O | x :: r => (dsize x + go r)%nat end) l
+  | GVMap (Some es) =>
+      (length es + (fix go (l : list (gval * gval)) : nat :=
+            match l with [] => O | (k, x) :: r => (dsize k + dsize x + go r)%nat end) es)%nat
+  | VPtr (Some x) => dsize x
+  | VAny (Some (_, x)) => dsize x
+  | _ => O
+  end.
+
+Definition dsum (l : list gval) : nat := sumf dsize l.
+Definition desum (es : list (gval * gval)) : nat :=
+  sumf (fun kv => (dsize (fst kv) + dsize (snd kv))%nat) es.
+
+Lemma dsize_go_list l :
+  (fix go (l : list gval) : nat := match l with [] => O | x :: r => (dsize x + go r)%nat end) l = dsum l.
+Proof. induction l as [|x r IH]; [reflexivity|]. unfold dsum. cbn [sumf]. rewrite IH. reflexivity. Qed.
+
+Lemma dsize_go_map es :
+  (fix go (l : list (gval * gval)) : nat :=
+     match l with [] => O | (k, x) :: r => (dsize k + dsize x + go r)%nat end) es = desum es.
+Proof.
+  induction es as [|[k x] r IH]; [reflexivity|]. unfold desum. cbn [sumf fst snd].
+  rewrite IH. reflexivity.
+Qed.
+
+Lemma dsize_slice l : dsize (VSlice (Some l)) = (length l + dsum l)%nat.
+Proof. rewrite <- dsize_go_list. reflexivity. Qed.
+Lemma dsize_arr l : dsize (GVArr l) = dsum l.
+Proof. rewrite <- dsize_go_list. reflexivity. Qed.
+Lemma dsize_struct l : dsize (VStruct l) = dsum l.
+Proof. rewrite <- dsize_go_list. reflexivity. Qed.
+Lemma dsize_map es : dsize (GVMap (Some es)) = (length es + desum es)%nat.
+Proof. rewrite <- dsize_go_map. reflexivity. Qed.
+
+Lemma sumf_app {X} (g : X -> nat) a b : sumf g (a ++ b) = (sumf g a + sumf g b)%nat.
+Proof. induction a as [|x a IH]; cbn [sumf app]; lia. Qed.
+
+Lemma sumf_rev {X} (g : X -> nat) a : sumf g (rev a) = sumf g a.
+Proof. induction a as [|x a IH]; [reflexivity|]. cbn [rev]. rewrite sumf_app, IH. cbn [sumf]. lia. Qed.
+
+Lemma sumf_repeat0 {X} (g : X -> nat) x n : g x = O -> sumf g (repeat x n) = O.
+Proof. intros H. induction n as [|n IH]; cbn [repeat sumf]; lia. Qed.
+
+Lemma sumf_map0 {X Y} (g : Y -> nat) (h : X -> Y) l : (forall x, g (h x) = O) -> sumf g (map h l) = O.
+Proof. intros H. induction l as [|x r IH]; cbn [map sumf]; [reflexivity|]. rewrite H, IH. reflexivity. Qed.
+
+(* zero values have no dynamic part *)
+Lemma dsize_zero : forall n E t, dsize (zero n E t) = O.
+Proof.
+  induction n as [|n IH]; intros E t; [reflexivity|].
+  destruct t; cbn [zero]; try reflexivity.
+  - rewrite dsize_arr. apply sumf_repeat0. apply IH.
+  - destruct (env_fields E id) as [fs|]; [|reflexivity].
+    rewrite dsize_struct. apply sumf_map0. intros x. apply IH.
+  - apply IH.
+Qed.
+
+Lemma dsize_zero_of E t : dsize (zero_of E t) = O.
+Proof. unfold zero_of. apply dsize_zero. Qed.
+
+(* token weight: one unit plus the payload bytes *)
+Definition tweight1 (t : token) : nat :=
+  match tv t with Str s | Byt s => S (length s) | _ => 1%nat end.
+Definition tweight (ts : list token) : nat := sumf tweight1 ts.
+
+Lemma tweight_cons t ts : tweight (t :: ts) = (tweight1 t + tweight ts)%nat.
+Proof. reflexivity. Qed.
+
+Lemma tweight1_pos t : (1 <= tweight1 t)%nat.
+Proof. unfold tweight1. destruct (tv t); lia. Qed.
+
+Lemma split_at_len c : forall s acc a b, split_at c s acc = Some (a, b) ->
+  (length a + length b + 1 = length acc + length s)%nat.
+Proof.
+  induction s as [|x r IH]; intros acc a b; cbn [split_at]; [discriminate|].
+  destruct (x =? c).
+  - intros H; inversion H; subst. rewrite rev_length. cbn [length]. lia.
+  - intros H. apply IH in H. cbn [length] in *. lia.
+Qed.
+
+Lemma tr_bwd_dsize kind w x : tr_bwd kind w = Some x -> (dsize x <= dsize w)%nat.
+Proof.
+  unfold tr_bwd.
+  repeat match goal with |- context [if ?c then _ else _] => destruct c end;
+    try discriminate;
+    (destruct w as [| | |s| | | | | | | |fs|]; try discriminate);
+    try (match goal with |- context [split_at ?c ?s ?a] =>
+           destruct (split_at c s a) as [[a0 b0]|] eqn:S; [|discriminate];
+           apply split_at_len in S; intros H; inversion H; subst;
+           rewrite dsize_struct; cbn [dsum sumf dsize length] in *; lia end);
+    repeat match goal with
+           | |- context [match ?l with _ => _ end] => is_var l; destruct l; try discriminate
+           end;
+    intros H; inversion H; subst; rewrite ?dsize_struct; cbn; lia.
+Qed.
+
+Lemma key_destr_dsize A kt destr k kv :
+  key_destringer A kt = Some destr -> destr k = Some kv -> (dsize kv <= length k)%nat.
+Proof.
+  unfold key_destringer. destruct (is_string_kind kt).
+  - intros H; inversion H; subst. intros H2; inversion H2; subst. cbn [dsize]. lia.
+  - destruct (atlas_get A kt) as [[ty tg [fs|kind wire|ms|md]]|]; try discriminate.
+    destruct (is_string_kind wire); [|discriminate].
+    intros H; inversion H; subst. intros H2. apply tr_bwd_dsize in H2. cbn [dsize] in H2. exact H2.
+Qed.
+
+Lemma wrap_ptrs_dsize n v : dsize (wrap_ptrs n v) = dsize v.
+Proof. induction n as [|n IH]; cbn [wrap_ptrs dsize]; [reflexivity | exact IH]. Qed.
+
+Lemma inner_cur_dsize E : forall n t v, (dsize (inner_cur E n t v) <= dsize v)%nat.
+Proof.
+  induction n as [|n IH]; intros t v; [destruct t; destruct v; cbn [inner_cur]; lia|].
+  destruct t; cbn [inner_cur]; try lia.
+  destruct v; try (eapply Nat.le_trans; [apply IH|]; unfold zero_of; rewrite dsize_zero; lia).
+  destruct o as [x|].
+  - eapply Nat.le_trans; [apply IH|]. cbn [dsize]. lia.
+  - eapply Nat.le_trans; [apply IH|]. unfold zero_of; rewrite dsize_zero; lia.
+Qed.
+
+Lemma dsum_replace_nth : forall fs i fv x, nth_error fs i = Some fv ->
+  (dsum (replace_nth fs i x) + dsize fv = dsum fs + dsize x)%nat.
+Proof.
+  induction fs as [|y r IH]; intros i fv x; destruct i as [|i]; cbn [nth_error replace_nth]; try discriminate.
+  - intros H; inversion H; subst. unfold dsum. cbn [sumf]. lia.
+  - intros H. specialize (IH i fv x H). unfold dsum in *. cbn [sumf]. lia.
+Qed.
+
+(* field routes: what [route_set] puts back is what [route_get] took out, with
+   the field replaced *)
+Definition rview (E : tenv) (t : gtype) (v : gval) : gtype * gval * bool :=
+  match t, v with
+  | GPtr t', VPtr (Some x) => (t', x, true)
+  | GPtr t', VPtr None => (t', zero_of E t', true)
+  | _, _ => (t, v, false)
+  end.
+
+Lemma route_get_S E f t v i r : route_get E (S f) t v (i :: r) =
+  let '(st, sv, _) := rview E t v in
+  match strip_named st, sv with
+  | GStruct id, VStruct fs =>
+      match env_fields E id, nth_error fs i with
+      | Some fts, Some fv =>
+          match nth_error fts i with
+          | Some ft => route_get E f ft fv r
+          | None => None
+          end
+      | _, _ => None
+      end
+  | _, _ => None
+  end.
+Proof. destruct t; destruct v; try reflexivity; try (destruct o; reflexivity). Qed.
+
+Lemma route_set_S E f t v i r nv : route_set E (S f) t v (i :: r) nv =
+  let '(st, sv, wrap) := rview E t v in
+  match strip_named st, sv with
+  | GStruct id, VStruct fs =>
+      match env_fields E id, nth_error fs i with
+      | Some fts, Some fv =>
+          match nth_error fts i with
+          | Some ft =>
+              match route_set E f ft fv r nv with
+              | Some fv' =>
+                  let s' := VStruct (replace_nth fs i fv') in
+                  Some (if wrap then VPtr (Some s') else s')
+              | None => None
+              end
+          | None => None
+          end
+      | _, _ => None
+      end
+  | _, _ => None
+  end.
+Proof. destruct t; destruct v; try reflexivity; try (destruct o; reflexivity). Qed.
+
+Lemma rview_dsize E t v st sv w : rview E t v = (st, sv, w) -> dsize sv = dsize v.
+Proof.
+  unfold rview. destruct t; destruct v; try (intros H; inversion H; subst; reflexivity).
+  destruct o; intros H; inversion H; subst; [reflexivity|].
+  unfold zero_of. rewrite dsize_zero. reflexivity.
+Qed.
+
+Lemma route_dsize E : forall fuel t v route g nv v',
+  route_get E fuel t v route = Some g -> route_set E fuel t v route nv = Some v' ->
+  (dsize v' + dsize g <= dsize v + dsize nv)%nat.
+Proof.
+  induction fuel as [|f IH]; intros t v route g nv v'; [discriminate|].
+  destruct route as [|i r].
+  - cbn [route_get route_set]. intros H1 H2; inversion H1; inversion H2; subst. lia.
+  - rewrite route_get_S, route_set_S.
+    destruct (rview E t v) as [[st sv] w] eqn:V. apply rview_dsize in V.
+    destruct (strip_named st); try discriminate.
+    destruct sv; try discriminate.
+    destruct (env_fields E id) as [fts|]; [|discriminate].
+    destruct (nth_error fields i) as [fv|] eqn:N; [|discriminate].
+    destruct (nth_error fts i) as [ft|]; [|discriminate].
+    intros H1.
+    destruct (route_set E f ft fv r nv) as [fv'|] eqn:RS; [|discriminate].
+    intros H2. inversion H2; subst v'. clear H2.
+    specialize (IH _ _ _ _ _ _ H1 RS).
+    pose proof (dsum_replace_nth fields i fv fv' N) as Hr.
+    rewrite dsize_struct in V.
+    assert (Hs : dsize (if w then VPtr (Some (VStruct (replace_nth fields i fv'))) else VStruct (replace_nth fields i fv'))
+                 = dsum (replace_nth fields i fv')).
+    { destruct w; cbn [dsize]; rewrite dsize_go_list; reflexivity. }
+    cbv zeta. rewrite Hs. lia.
+Qed.
+
+Lemma uprim_dsize t cur ts v rest : uprim t cur ts = UOk v rest ->
+  (dsize v + 1 + tweight rest <= dsize cur + tweight ts)%nat.
+Proof.
+  unfold uprim. destruct ts as [|[tv tg] r]; [discriminate|].
+  rewrite tweight_cons. unfold tweight1. cbn [Tok.tv].
+  destruct t; destruct tv; try discriminate;
+    try (intros H; inversion H; subst; cbn [dsize]; lia);
+    match goal with |- context [if ?c then _ else _] => destruct c end; try discriminate;
+    intros H; inversion H; subst; cbn [dsize]; lia.
+Qed.
+
+Lemma uany_scalar_dsize v x tg : uany_scalar v = Some x -> (dsize x + 1 <= tweight1 (Tok v tg))%nat.
+Proof.
+  unfold tweight1. cbn [tv].
+  destruct v; cbn [uany_scalar]; try discriminate; intros H; inversion H; subst; cbn [dsize]; try lia.
+  destruct (u <=? max_i64); cbn [dsize]; lia.
+Qed.
+
+Lemma ubind_ok_inv r k v rest : ubind r k = UOk v rest ->
+  exists v1 r1, r = UOk v1 r1 /\ k v1 r1 = UOk v rest.
+Proof. destruct r; cbn [ubind]; try discriminate. eauto. Qed.
+
+Section USize.
+  Variable E : tenv.
+  Variable A : atlas.
+
+  Definition sz_all (f : nat) : Prop :=
+    (forall t cur ts v rest, unmarshal E A f t cur ts = UOk v rest ->
+        (dsize v + 1 + tweight rest <= dsize cur + tweight ts)%nat) /\
+    (forall t cur ts v rest, unmarshal_bare E A f t cur ts = UOk v rest ->
+        (dsize v + 1 + tweight rest <= dsize cur + tweight ts)%nat) /\
+    (forall t cur ts v rest, unmarshal_kind E A f t cur ts = UOk v rest ->
+        (dsize v + 1 + tweight rest <= dsize cur + tweight ts)%nat) /\
+    (forall ts v rest, unmarshal_any E A f ts = UOk v rest ->
+        (dsize v + 1 + tweight rest <= tweight ts)%nat) /\
+    (forall et acc ts v rest, unmarshal_slice E A f et acc ts = UOk v rest ->
+        (dsize v + 1 + tweight rest <= length acc + dsum acc + tweight ts)%nat) /\
+    (forall n et acc ts v rest, unmarshal_array E A f n et acc ts = UOk v rest ->
+        (dsize v + 1 + tweight rest <= dsum acc + tweight ts)%nat) /\
+    (forall kt vt cur ts v rest, unmarshal_map E A f kt vt cur ts = UOk v rest ->
+        (dsize v + 1 + tweight rest <= dsize cur + tweight ts)%nat) /\
+    (forall ds vt es ts v rest,
+        (forall k kv, ds k = Some kv -> (dsize kv <= length k)%nat) ->
+        unmarshal_map_entries E A f ds vt es ts = UOk v rest ->
+        (dsize v + 1 + tweight rest <= length es + desum es + tweight ts)%nat) /\
+    (forall e cur ts v rest, unmarshal_entry E A f e cur ts = UOk v rest ->
+        (dsize v + 1 + tweight rest <= dsize cur + tweight ts)%nat) /\
+    (forall st fs len cur cnt ts v rest, unmarshal_fields E A f st fs len cur cnt ts = UOk v rest ->
+        (dsize v + 1 + tweight rest <= dsize cur + tweight ts)%nat).
+
+  Lemma sz_zero : sz_all 0.
+  Proof. repeat split; intros; discriminate. Qed.
+
+  Ltac tw := rewrite ?tweight_cons in *; unfold tweight1 in *; cbn [tv] in *.
+  Ltac zz := rewrite ?dsize_zero_of in *.
+
+  Lemma sz_step f : sz_all f -> sz_all (S f).
+  Proof.
+    intros (Hu & Hb & Hk & Ha & Hs & Har & Hm & Hme & He & Hf).
+    repeat split.
+    - (* unmarshal *)
+      intros t cur ts v rest. rewrite unmarshal_S. destruct (peel t) as [n base].
+      destruct n as [|n]; [apply Hb|].
+      destruct ts as [|[tv0 tg] r]; [discriminate|].
+      assert (Hgen : ubind (unmarshal_bare E A f base (inner_cur E (S n) t cur) (Tok tv0 tg :: r))
+                        (fun v r => UOk (wrap_ptrs (S n) v) r) = UOk v rest ->
+                     (dsize v + 1 + tweight rest <= dsize cur + tweight (Tok tv0 tg :: r))%nat).
+      { intros H. apply ubind_ok_inv in H. destruct H as (v1 & r1 & H1 & H2).
+        inversion H2; subst. apply Hb in H1.
+        change (VPtr (Some (wrap_ptrs n v1))) with (wrap_ptrs (S n) v1). rewrite wrap_ptrs_dsize.
+        pose proof (inner_cur_dsize E (S n) t cur). lia. }
+      destruct tv0; try exact Hgen.
+      intros H; inversion H; subst. tw. cbn [dsize]. lia.
+    - (* bare *)
+      intros t cur ts v rest. rewrite unmarshal_bare_S.
+      destruct (is_unnamed_prim t); [apply uprim_dsize|].
+      destruct (atlas_get A t); [apply He | apply Hk].
+    - (* kind *)
+      intros t cur ts v rest. rewrite unmarshal_kind_S.
+      destruct t; try apply uprim_dsize; try apply Hm;
+        try (destruct ts; discriminate).
+      + destruct ts as [|[tv0 tg] r]; [discriminate|].
+        destruct tv0; try discriminate.
+        * intros H. apply Hs in H. tw. cbn [length dsum sumf] in H. lia.
+        * intros H; inversion H; subst. tw. cbn [dsize]. lia.
+      + destruct ts as [|[tv0 tg] r]; [discriminate|].
+        destruct tv0; try discriminate.
+        * intros H. apply Har in H. tw. cbn [length dsum sumf] in H. lia.
+        * intros H; inversion H; subst. tw. zz. lia.
+      + intros H. apply Ha in H. lia.
+      + intros H. apply Ha in H. lia.
+    - (* any *)
+      intros ts v rest. rewrite unmarshal_any_S.
+      destruct ts as [|[tv0 [tg|]] r]; [discriminate| |].
+      + destruct (atlas_by_tag A tg) as [e|]; [|discriminate]. cbv zeta.
+        intros H. apply ubind_ok_inv in H. destruct H as (v1 & r1 & H1 & H2).
+        inversion H2; subst. apply Hb in H1. zz. cbn [dsize]. lia.
+      + destruct tv0; try discriminate;
+          try (destruct (uany_scalar _) as [x|] eqn:U; [|discriminate];
+               intros H; inversion H; subst;
+               apply (uany_scalar_dsize _ _ None) in U; rewrite tweight_cons; lia).
+        * intros H. apply ubind_ok_inv in H. destruct H as (v1 & r1 & H1 & H2).
+          inversion H2; subst. apply Hm in H1. change (dsize (GVMap (Some []))) with O in H1.
+          change (dsize (VAny (Some (GMap GStr GAny, v1)))) with (dsize v1). lia.
+        * intros H. apply ubind_ok_inv in H. destruct H as (v1 & r1 & H1 & H2).
+          inversion H2; subst. apply Hs in H1. tw. cbn [length dsum sumf] in H1.
+          change (dsize (VAny (Some (GSlice GAny, v1)))) with (dsize v1). lia.
+    - (* slice *)
+      intros et acc ts v rest. rewrite unmarshal_slice_S.
+      destruct ts as [|[tv0 tg] r]; [discriminate|].
+      assert (Hgen : ubind (unmarshal E A f et (zero_of E et) (Tok tv0 tg :: r))
+                        (fun x r => unmarshal_slice E A f et (x :: acc) r) = UOk v rest ->
+                     (dsize v + 1 + tweight rest <= length acc + dsum acc + tweight (Tok tv0 tg :: r))%nat).
+      { intros H. apply ubind_ok_inv in H. destruct H as (x & r1 & H1 & H2).
+        apply Hu in H1. apply Hs in H2. zz. cbn [length] in H2. unfold dsum in *. cbn [sumf] in H2. lia. }
+      destruct tv0; try exact Hgen; try discriminate.
+      intros H; inversion H; subst. rewrite dsize_slice, rev_length. unfold dsum. rewrite sumf_rev. tw. lia.
+    - (* array *)
+      intros n et acc ts v rest. rewrite unmarshal_array_S.
+      destruct ts as [|[tv0 tg] r]; [discriminate|].
+      assert (Hgen : (if Nat.leb n (length acc) then UErr (length (Tok tv0 tg :: r))
+                      else ubind (unmarshal E A f et (zero_of E et) (Tok tv0 tg :: r))
+                             (fun x r => unmarshal_array E A f n et (x :: acc) r)) = UOk v rest ->
+                     (dsize v + 1 + tweight rest <= dsum acc + tweight (Tok tv0 tg :: r))%nat).
+      { destruct (Nat.leb n (length acc)); [discriminate|].
+        intros H. apply ubind_ok_inv in H. destruct H as (x & r1 & H1 & H2).
+        apply Hu in H1. apply Har in H2. zz. unfold dsum in *. cbn [sumf] in H2. lia. }
+      destruct tv0; try exact Hgen; try discriminate.
+      intros H; inversion H; subst. rewrite dsize_arr. unfold dsum. rewrite sumf_app, sumf_rev.
+      rewrite sumf_repeat0 by apply dsize_zero_of. tw. lia.
+    - (* map *)
+      intros kt vt cur ts v rest. rewrite unmarshal_map_S.
+      destruct (key_destringer A kt) as [destr|] eqn:K; [|destruct ts; discriminate].
+      destruct ts as [|[tv0 tg] r]; [discriminate|].
+      destruct tv0; try discriminate.
+      + cbv zeta. intros H. apply Hme in H.
+        * tw. destruct cur; try (cbn [length desum sumf] in H; lia).
+          destruct o as [es|]; [|cbn [length desum sumf] in H; lia].
+          rewrite dsize_map. lia.
+        * intros k kv. apply (key_destr_dsize A kt destr k kv K).
+      + intros H; inversion H; subst. tw. cbn [dsize]. lia.
+    - (* map entries *)
+      intros ds vt es ts v rest Hds. rewrite unmarshal_map_entries_S.
+      destruct ts as [|[tv0 tg] r]; [discriminate|].
+      destruct tv0; try discriminate.
+      + intros H; inversion H; subst. rewrite dsize_map. tw. lia.
+      + destruct (ds s) as [kv|] eqn:D; [|discriminate].
+        destruct (existsb _ es); [discriminate|].
+        intros H. apply ubind_ok_inv in H. destruct H as (x & r1 & H1 & H2).
+        apply Hu in H1. apply (Hme _ _ _ _ _ _ Hds) in H2. apply Hds in D. zz.
+        rewrite app_length in H2. unfold desum in *. rewrite sumf_app in H2. cbn [sumf fst snd length] in H2.
+        tw. lia.
+    - (* entry *)
+      intros e cur ts v rest. rewrite unmarshal_entry_S.
+      destruct (ae_kind e) as [fields|kind wire|members|mode].
+      + destruct ts as [|[tv0 tg] r]; [discriminate|].
+        destruct tv0; try discriminate.
+        * intros H. apply Hf in H. tw. lia.
+        * intros H; inversion H; subst. tw. zz. lia.
+      + intros H. apply ubind_ok_inv in H. destruct H as (w & r1 & H1 & H2).
+        apply Hb in H1. destruct (tr_bwd kind w) as [x|] eqn:T; [|discriminate].
+        inversion H2; subst. apply tr_bwd_dsize in T. zz. lia.
+      + destruct ts as [|[tv0 tg] r]; [discriminate|].
+        destruct tv0; try discriminate.
+        destruct ((len =? -1) || (len =? 1)); [|discriminate].
+        destruct r as [|[v2 tg2] r2]; [discriminate|].
+        destruct v2; try discriminate.
+        destruct (find _ members) as [[nm mt]|]; [|discriminate].
+        destruct (atlas_get A mt) as [me|]; [|discriminate].
+        intros H. apply ubind_ok_inv in H. destruct H as (mv & r3 & H1 & H2).
+        apply He in H1.
+        destruct r3 as [|[v3 tg3] r4]; [discriminate|]. destruct v3; try discriminate.
+        inversion H2; subst. tw. zz. cbn [dsize]. lia.
+      + destruct (strip_named (ae_type e)); try (destruct ts; discriminate). apply Hm.
+    - (* fields *)
+      intros st fs len cur cnt ts v rest. rewrite unmarshal_fields_S.
+      destruct ts as [|[tv0 tg] r]; [discriminate|].
+      destruct tv0; try discriminate.
+      + destruct ((0 <=? len) && negb (len =? cnt)); [discriminate|].
+        intros H; inversion H; subst. tw. lia.
+      + destruct (find _ fs) as [fe|]; [|discriminate].
+        destruct (fe_ignore fe).
+        * intros H. apply ubind_ok_inv in H. destruct H as (x & r1 & H1 & H2).
+          apply Ha in H1. apply Hf in H2. tw. lia.
+        * destruct r as [|t0 r0]; [discriminate|].
+          destruct (route_get E 50 st cur (fe_route fe)) as [fcur|] eqn:RG; [|discriminate].
+          intros H. apply ubind_ok_inv in H. destruct H as (fv & r1 & H1 & H2).
+          destruct (route_set E 50 st cur (fe_route fe) fv) as [cur'|] eqn:RS; [|discriminate].
+          apply Hu in H1. apply Hf in H2.
+          pose proof (route_dsize E _ _ _ _ _ _ _ RG RS) as HR.
+          rewrite (tweight_cons (Tok (Str s) tg)). unfold tweight1 at 1. cbn [tv]. lia.
+  Qed.
+
+  Lemma sz_all_holds f : sz_all f.
+  Proof. induction f; [apply sz_zero | apply sz_step; assumption]. Qed.
+End USize.
+
+(* the dynamic part of the value stored is strictly covered by the weight of the
+   tokens consumed (one unit per token plus its payload bytes) and what the slot
+   held before; no declared length, no type size appears *)
+Theorem unmarshal_size_linear : forall E A f t cur ts v rest,
+  unmarshal E A f t cur ts = UOk v rest ->
+  (dsize v + 1 + tweight rest <= dsize cur + tweight ts)%nat.
+Proof. intros E A f t cur ts v rest H. destruct (sz_all_holds E A f) as (Hu & _). eapply Hu; eauto. Qed.
+Print Assumptions unmarshal_size_linear.
+
+
+Lemma tweight_app a b : tweight (a ++ b) = (tweight a + tweight b)%nat.
+Proof. apply sumf_app. Qed.
+
+Lemma tweight_ge_length ts : (length ts <= tweight ts)%nat.
+Proof.
+  induction ts as [|t r IH]; [cbn; lia|]. rewrite tweight_cons. pose proof (tweight1_pos t). cbn [length]. lia.
+Qed.
+
+(* in terms of the tokens used *)
+Corollary unmarshal_size_used : forall E A f t cur used rest v,
+  unmarshal E A f t cur (used ++ rest) = UOk v rest ->
+  (dsize v < dsize cur + tweight used)%nat.
+Proof.
+  intros E A f t cur used rest v H. apply unmarshal_size_linear in H.
+  rewrite tweight_app in H. lia.
+Qed.
+
+(* a fixed-size array has exactly the length its type says, whatever arrived *)
+Lemma unmarshal_array_length E A : forall f n et acc ts v rest,
+  unmarshal_array E A f n et acc ts = UOk v rest -> (length acc <= n)%nat ->
+  exists l, v = GVArr l /\ length l = n.
+Proof.
+  induction f as [|f IH]; intros n et acc ts v rest; [discriminate|].
+  rewrite unmarshal_array_S.
+  destruct ts as [|[tv0 tg] r]; [discriminate|].
+  assert (Hgen : (if Nat.leb n (length acc) then UErr (length (Tok tv0 tg :: r))
+                  else ubind (unmarshal E A f et (zero_of E et) (Tok tv0 tg :: r))
+                         (fun x r => unmarshal_array E A f n et (x :: acc) r)) = UOk v rest ->
+                 (length acc <= n)%nat -> exists l, v = GVArr l /\ length l = n).
+  { destruct (Nat.leb n (length acc)) eqn:L; [discriminate|].
+    intros H Hle. apply ubind_ok_inv in H. destruct H as (x & r1 & H1 & H2).
+    apply IH in H2; [exact H2|]. cbn [length]. apply Nat.leb_gt in L. lia. }
+  destruct tv0; try exact Hgen; try discriminate.
+  intros H Hle; inversion H; subst. eexists; split; [reflexivity|].
+  rewrite app_length, rev_length, repeat_length. lia.
+Qed.
+
+(* ---------- the structural size does need the type --------------------------- *)
+
+(* [gsize v <= gsize cur + K * tokens] is false for every K: four tokens build a
+   slice holding one zero-padded array of any length N *)
+Lemma lsum_repeat x n : lsum (repeat x n) = (n * gsize x)%nat.
+Proof. induction n as [|n IH]; [reflexivity|]. cbn [repeat]. rewrite lsum_cons, IH. lia. Qed.
+
+Theorem gsize_bound_needs_type_term : forall K : nat,
+  exists t ts v,
+    unmarshal [] empty_atlas 20 t (zero 50 [] t) ts = UOk v [] /\
+    (gsize v > gsize (zero 50 [] t) + K * length ts)%nat.
+Proof.
+  intros K.
+  exists (GSlice (GArr (4 * K) (GNum I64))),
+         [Tok (ArrOpen 1) None; Tok (ArrOpen 0) None; Tok ArrClose None; Tok ArrClose None],
+         (VSlice (Some [GVArr (repeat (VNum 0) (4 * K - 0))])).
+  split; [reflexivity|].
+  change (zero 50 [] (GSlice (GArr (4 * K) (GNum I64)))) with (VSlice None).
+  rewrite gsize_slice, lsum_cons, gsize_arr, lsum_repeat. cbn [lsum sumf gsize length]. lia.
+Qed.
+
+(* and it grows with every element, so a type-size term added once is not enough
+   either: ten empty arrays (22 tokens) into []([1000]int64) *)
+Example gsize_grows_by_type_size_per_element :
+  match unmarshal [] empty_atlas 40 (GSlice (GArr 1000 (GNum I64))) (VSlice None)
+          (Tok (ArrOpen 10) None ::
+           flat_map (fun _ => [Tok (ArrOpen 0) None; Tok ArrClose None]) (seq 0 10) ++ [Tok ArrClose None]) with
+  | UOk v [] => gsize v = (10 * 1001 + 1)%nat /\ dsize v = 10%nat
+  | _ => False
+  end.
+Proof. vm_compute. split; reflexivity. Qed.
+
+(* ---------- declared lengths are not used to size anything ------------------- *)
+
+Example ex_declared_length_ignored_slice :
+  unmarshal [] empty_atlas 20 (GSlice (GNum I64)) (VSlice None)
+    [Tok (ArrOpen 4611686018427387904) None; Tok (Int 7) None; Tok ArrClose None]
+  = UOk (VSlice (Some [VNum 7])) [].
+Proof. vm_compute. reflexivity. Qed.
+
+Example ex_declared_length_ignored_map :
+  unmarshal [] empty_atlas 20 GAny (VAny None)
+    [Tok (MapOpen 4611686018427387904) None; Tok (Str [107]) None; Tok (Int 7) None; Tok MapClose None]
+  = UOk (VAny (Some (GMap GStr GAny,
+                     GVMap (Some [(GVStr [107], VAny (Some (GNum IInt, VNum 7)))])))) [].
+Proof. vm_compute. reflexivity. Qed.
+
+Example ex_declared_length_starved :
+  unmarshal [] empty_atlas 20 (GSlice (GNum I64)) (VSlice None)
+    [Tok (ArrOpen 4611686018427387904) None] = UStarved.
+Proof. vm_compute. reflexivity. Qed.
+
+Print Assumptions unmarshal_size_used.
+Print Assumptions unmarshal_array_length.
+Print Assumptions gsize_bound_needs_type_term.
